@@ -165,6 +165,63 @@ def run(ctx):
                 pass
 
     # ------------------------------------------------------------------ read-outs
+    # ---- operand reuse: straight-line programs over shared algebra elements; results as in the model, operands left unmodified
+    progs = []
+    for k in range(10 if quick else 120):
+        fam = rng.choice(["generic", "dyadic", "int"])
+        par = rng.randint(0, 1)
+        n = rng.randint(2, 5)
+        dmin = 2 * rng.randint(-3, 1) + par
+        lits = []
+        for el in range(3):
+            nn = n if el < 2 else rng.randint(1, 3)
+            dm = dmin if el < 2 else 2 * rng.randint(-2, 1) + rng.randint(0, 1)
+            lits.append([dm, exprs.gen_vec(rng, fam, nn, zeros=False)])
+            lits.append([dm, exprs.gen_vec(rng, fam, nn, zeros=False)])
+        ops = [["add", 0, 1], ["add", 0, 1], ["mul", 0, 2], ["sub", 0, 1], ["add", 6, 1], ["add", 1, 0], ["mul", 3, 0], ["add", 0, 3], ["mul", 2, 0]]
+        progs.append({"lits": lits, "ops": ops, "fam": fam})
+    if ctx.replay is not None:
+        progs = [ctx.replay["case"]] if ctx.replay.get("site") == "reuse" else []
+    pres = run_impl([{"fn": "preuse", "alg": True, "lits": [[l[0], [exprs.jnum(x) for x in l[1]]] for l in p_["lits"]], "ops": p_["ops"]} for p_ in progs])
+    plines, pkeep = [], []
+    for p_, r in zip(progs, pres):
+        ctx.count(["reuse", p_["lits"]], nontrivial=True, bucket="operand reuse")
+        if "exc" in r:
+            ctx.fail("reuse", p_, "a straight-line program over shared elements raised %s: %s" % (r["exc"], r.get("msg", "")[:80]))
+            continue
+        L = p_["lits"]
+        trees = [["glit", ["lit", L[2 * k][0], L[2 * k][1]], ["lit", L[2 * k + 1][0], L[2 * k + 1][1]]] for k in range(len(L) // 2)]
+        nel = len(trees)
+        for op, i, j in p_["ops"]:
+            trees.append(["g" + op, trees[i], trees[j]])
+        bad = False
+        for k, after in enumerate(r["ok"]["lits_after"]):
+            for part, l in (("I", L[2 * k]), ("X", L[2 * k + 1])):
+                if [fr(x) for x in after[part]["coefs"]] != [fr(x) for x in l[1]] or after[part]["dmin"] != l[0]:
+                    ctx.fail("reuse", p_, "operand %d (%s part) was modified by an operation that used it: coefficients %s became %s"
+                             % (k, part, [float(fr(x)) for x in l[1]][:6], [float(fr(x)) for x in after[part]["coefs"]][:6]))
+                    bad = True
+                    break
+            if bad:
+                break
+        if bad:
+            continue
+        for t, res in zip(trees[nel:], r["ok"]["results"]):
+            plines.append("(geval %s)" % exprs.g_sexp(t))
+            pkeep.append((p_, t, res))
+    pmod = run_model(plines)
+    for (p_, t, res), m in zip(pkeep, pmod):
+        if isinstance(m, str):
+            if m != "ERR":
+                ctx.infra_fail("extracted model failed on a reuse program: " + m[:80])
+            continue
+        mi, mx = gdenot(m)
+        ai, ax = [exprs.fmag(dd) for dd in exprs.mag_g(t)]
+        for part, dm, da in (("I", mi, ai), ("X", mx, ax)):
+            msg = exprs.compare_denot(dm, exprs.denot_impl(res[part]), da, exprs.gnops(t) + 2 if hasattr(exprs, "gnops") else 12, False)
+            if msg:
+                ctx.fail("reuse", p_, "result of a step that reuses earlier operands, %s part: %s" % (part, msg))
+                break
     ro_cases = []
     for _ in range(60 if quick else 600):
         t = rng.choice(SPECIAL) if rng.random() < 0.3 else rng.uniform(-math.pi, math.pi)
